@@ -15,6 +15,10 @@ Inductive pconstraint := CExact | CMin.                  (* utils.PrecisionConst
 (* what strftime('%Y') does for years below 1000: glibc prints them without
    padding (Unpadded); Pad4 is the repaired behaviour.                       *)
 Inductive year_mode := Unpadded | Pad4.
+(* what parse_into_datetime does with a timezone-naive datetime: keeps it naive (NaiveKept),
+   or localises it to UTC (NaiveUtc, the later behaviour).  format_datetime writes a naive
+   value as UTC either way, so the written text is the same.                 *)
+Inductive naive_mode := NaiveKept | NaiveUtc.
 
 Inductive result (A : Type) := Ok (a : A) | Raise (e : string).
 Arguments Ok {A} a.
@@ -247,9 +251,10 @@ Inductive tsinput :=
 
 (* parse_into_datetime(value, precision, precision_constraint): the stored
    wall-clock instant and utc offset of the resulting STIXdatetime            *)
-Definition parse_into (p : precision) (c : pconstraint) (v : tsinput) : result (Z * option Z) :=
+Definition parse_into (nm : naive_mode) (p : precision) (c : pconstraint) (v : tsinput) : result (Z * option Z) :=
   match v with
-  | InDatetime l o => Ok (stored_trunc p c l, o)                       (* ts = value *)
+  | InDatetime l o =>                                                  (* ts = value [localised if naive] *)
+      Ok (stored_trunc p c l, match o, nm with None, NaiveUtc => Some 0 | _, _ => o end)
   | InDate y m d => Ok (stored_trunc p c (instant_of y m d 0 0 0 0), Some 0)   (* combine(value, time(0,0,tzinfo=utc)) *)
   | InStr s => match parse_strptime s with
                | Some t => Ok (stored_trunc p c t, Some 0)
@@ -259,8 +264,8 @@ Definition parse_into (p : precision) (c : pconstraint) (v : tsinput) : result (
 
 (* format_datetime(parse_into_datetime(v, p, c)) -- also what
    TimestampProperty(p, c).clean + JSON serialization produce                *)
-Definition write (ym : year_mode) (p : precision) (c : pconstraint) (v : tsinput) : result ustring :=
-  match parse_into p c v with
+Definition write (nm : naive_mode) (ym : year_mode) (p : precision) (c : pconstraint) (v : tsinput) : result ustring :=
+  match parse_into nm p c v with
   | Ok (l, o) => format_dt ym p c l o
   | Raise e => Raise e
   end.
@@ -271,8 +276,8 @@ Definition show_optZ (o : option Z) : string :=
   match o with None => "naive" | Some z => show_Z z end.
 Definition show_text (r : result ustring) : string :=
   match r with Ok s => append "OK " (show_ustr s) | Raise e => append "EXC " e end.
-Definition show_parsed (ym : year_mode) (p : precision) (c : pconstraint) (v : tsinput) : string :=
-  match parse_into p c v with
+Definition show_parsed (nm : naive_mode) (ym : year_mode) (p : precision) (c : pconstraint) (v : tsinput) : string :=
+  match parse_into nm p c v with
   | Ok (l, o) => append "OK " (append (show_Z l) (append " " (append (show_optZ o) (append " "
                    (match format_dt ym p c l o with Ok s => show_ustr s | Raise e => append "EXC " e end)))))
   | Raise e => append "EXC " e
